@@ -90,15 +90,6 @@ def env (f32 f64 : F → List Nat) : Env := ⟨fns, raws, f32, f64⟩
 
 /-! ## comparison lemmas -/
 
-theorem holds_compare (r : Rel) (a b : Int) :
-    r.holds (some (compare a b)) = (match r with
-      | .lt => decide (a < b) | .le => decide (a ≤ b) | .gt => decide (a > b)
-      | .ge => decide (a ≥ b) | .eq => decide (a = b) | .ne => decide (a ≠ b)) := by
-  rcases Int.lt_trichotomy a b with h | h | h
-  · rw [Int.compare_eq_lt.mpr h]; cases r <;> simp [Rel.holds] <;> omega
-  · subst h; rw [Int.compare_eq_eq.mpr rfl]; cases r <;> simp [Rel.holds]
-  · rw [Int.compare_eq_gt.mpr h]; cases r <;> simp [Rel.holds] <;> omega
-
 /-- An integer scrutinee against an integer constant. -/
 theorem rel_int_const (r : Rel) (t : IntTy) (v c : Int) :
     Cond.eval (.int t v) (.rel r .self (.c c 0)) = some (r.holds (some (compare v c))) := by
